@@ -271,6 +271,7 @@ func (p Statements) PrettyPrint(ps *PrintState) *PrintState {
 	}
 	ps.IndentLevel++
 	ps.ExpressionPrecedence = LOWEST
+	ps.prev = nil // the layout of the first statement of a block must not depend on whatever was printed last elsewhere.
 	var i int
 	for _, s := range p.Statements {
 		// (the long form keeps printing such a statement bare on its own line.)
